@@ -363,7 +363,7 @@ def outcomes_for(b, cap, pairs, with_skips=True):
         with open(meta) as fh:
             return read_ndjson(path), json.load(fh)
     outs, abnormal = p2gen.run_runner(b.res["bin"], wd, full, n, entries=entries, skips=skips,
-                                      pairs=pairs, timeout=90)
+                                      pairs=pairs, timeout=40)
     write_ndjson(path, outs)
     m = {"n": n, "alphabet": full, "skips": skips, "entries": entries, "abnormal": abnormal}
     with open(meta, "w") as fh:
@@ -412,7 +412,7 @@ def judge(prop, tier):
             recs = recs + [st]
         return b, outs, meta, recs, nreal, st is not None
     t_j = time.time()
-    prepared = [prepare(b) for b in sel]
+    prepared = parallel(prepare, sel, jobs=8)
     # shards: a few JVMs, each judging several grammars (records carry the grammar index)
     nshard = max(1, min(6, len(prepared)))
     order = sorted(range(len(prepared)), key=lambda k: -len(prepared[k][3]))
